@@ -46,4 +46,24 @@ def runObj (guarded : Bool) : ObjState → List Ev → List Nat
 
 def initObj : ObjState := { draws := 0, cached := 0, dirty := true }
 
+/-- the estimator a call of `ELBO._call` computes -/
+inductive ElboBranch | score | multi | analytic | mc | unknown
+deriving DecidableEq, Repr, Inhabited
+
+/-- one row of the generated branch table: options, rank of the sample shape, is its last dimension 1 -/
+structure ElboCase where
+  score : Bool
+  entropy : Bool
+  rank : Nat
+  last1 : Bool
+  branch : ElboBranch
+deriving DecidableEq, Repr, Inhabited
+
+/-- the branch the model (and the theorems `tight_*`) assign: the score surrogate when asked for; otherwise the
+RANK of the sample shape alone decides — every two-dimensional shape, `[N,1]` and `[1,1]` included, is the
+multi-sample estimator (which ignores `entropy`); a one-dimensional shape is the analytic-entropy or the
+Monte-Carlo ELBO -/
+def ElboCase.expected (c : ElboCase) : ElboBranch :=
+  if c.score then .score else if c.rank = 2 then .multi else if c.entropy then .analytic else .mc
+
 end TT.C14
